@@ -177,7 +177,7 @@ func mutate(rng *rand.Rand, b []byte) []byte {
 func genFuzz(c *Ctx) {
 	run := func(kind string, data []byte) {
 		in := L(Sym(kind), Bytes(data))
-		c.Emit(in, runFuzz(in))
+		c.Pending(in); c.Emit(in, runFuzz(in))
 	}
 	settingsSeed := []byte("[DEFAULT]\nSocketConnectHost=127.0.0.1\nSenderCompID=TW\n# c\n\n[SESSION]\nBeginString=FIX.4.2\nTargetCompID=ISLD\nHeartBtInt=30\n[session]\nBeginString=FIX.4.4\nTargetCompID=X\n")
 	dictSeed, _ := os.ReadFile("/repo/spec/FIX40.xml")
